@@ -168,13 +168,14 @@ func runScenario(sc *scenario) (res runResult) {
 // ---------------------------------------------------------------- Coq emission
 
 type emitter struct {
-	seqs  []string // C17: indices of the runs that deliver one activity repeatedly
-	hist  []string // C05: (initial outbox items, ids of the accepted posts in order, final outbox items)
-	strs  map[string]int
-	jsons map[string]int
-	defs  strings.Builder
-	nstr  int
-	njs   int
+	seqs   []string // C17: indices of the runs that deliver one activity repeatedly
+	hist   []string // C05: (initial outbox items, ids of the accepted posts in order, final outbox items)
+	worlds []string // C17: (run index, (owned ids, stored values, dereferenceable documents, forwarding depth limit)) before that run
+	strs   map[string]int
+	jsons  map[string]int
+	defs   strings.Builder
+	nstr   int
+	njs    int
 }
 
 func newEmitter() *emitter { return &emitter{strs: map[string]int{}, jsons: map[string]int{}} }
@@ -364,10 +365,53 @@ func (e *emitter) file(runs []string) string {
 	b.WriteString("Definition sequences : list (list nat) := [\n")
 	b.WriteString(strings.Join(e.seqs, ";\n"))
 	b.WriteString("\n].\n")
+	b.WriteString("Definition worlds : list (nat * (list string * list (string * json) * list (string * ans) * nat)) := [\n")
+	b.WriteString(strings.Join(e.worlds, ";\n"))
+	b.WriteString("\n].\n")
 	b.WriteString("Definition histories : list (list json * list string * list json) := [\n")
 	b.WriteString(strings.Join(e.hist, ";\n"))
 	b.WriteString("\n].\n")
 	return b.String()
+}
+
+// world records what the server owned, stored and could dereference before run idx, and the forwarding depth limit
+// (C17: the specification's must_forward is evaluated on it).
+func (e *emitter) world(idx int, sc *scenario) {
+	w := sc.World
+	var owned []string
+	for k, v := range w.Owned {
+		if v {
+			owned = append(owned, k)
+		}
+	}
+	sort.Strings(owned)
+	var keys []string
+	for k := range w.Store {
+		keys = append(keys, k)
+	}
+	sort.Strings(keys)
+	st := make([]string, len(keys))
+	for i, k := range keys {
+		st[i] = "(" + e.str(k) + ", " + e.json(deepCopy(w.Store[k]), true) + ")"
+	}
+	keys = keys[:0]
+	for k := range w.Remote {
+		keys = append(keys, k)
+	}
+	sort.Strings(keys)
+	rm := make([]string, len(keys))
+	for i, k := range keys {
+		d := w.Remote[k]
+		a := answer{Kind: "err"}
+		switch d.Kind {
+		case "doc":
+			a = answer{Kind: "json", J: deepCopy(d.Doc)}
+		case "notjson":
+			a = answer{Kind: "notjson"}
+		}
+		rm[i] = "(" + e.str(k) + ", " + e.answer(a) + ")"
+	}
+	e.worlds = append(e.worlds, fmt.Sprintf("(%d, (%s, [%s], [%s], %d))", idx, e.strList(owned), strings.Join(st, "; "), strings.Join(rm, "; "), sc.Cfg.MaxForwarding))
 }
 
 // history records one outbox history for the C05 listing theorem.
